@@ -12,929 +12,1151 @@ Definition show_fres (r : fres) : string :=
   end.
 Definition check (rs : list rune) : string := digest (show_fres (format_res rs)).
 Definition full (rs : list rune) : string := show_fres (format_res rs).
-Eval vm_compute in ("<<<M339>>>" ++ check (runes_of_ascii "// @lengthOf(
-packet A { repeat rootA
-{ repeat o , BodyLength i64_ `// not a comment` ,  repeatCount @calculatedFrom(""it's"" ) , }
-    // @lengthOf(
-    ,
-//x
-//x
-@tag( 0 ) falsey @lengthOf( BodyLength
-), @leftPad ( ) @calculatedFrom( ""1"" )
-@lengthOf(int ) match trueish
-as body // trailing space 
-{ [ 007
-, 7
-,
-    ""abc"",
-""x y"" ,  00 , ""// no comment"" ,
-    255, 1
-]: body
-, } , @lengthOf( Pad ) metadata@calculatedFrom( ""it's"" )
-,
-    // `tick` ""quote"" 'q'
-    @leftPad() @calculatedFrom(	""" ++ [233]%N ++ runes_of_ascii "t" ++ [233]%N ++ runes_of_ascii """ ) char falsey `" ++ [233]%N ++ runes_of_ascii "`,char[
-007 ] metadata @lengthOf( chars) , @rightPad ( '0'
-) u8 // c
-roots@calculatedFrom( ""packet"" ) ,
-    string_ MetaDataX ,@lengthOf( Z9_ ) @leftPad ( '\x00' ) /// triple
-@rightPad
-    ( ' ' //
-) MetaDataX
-    `two words`  ,zchar[
-0
-    ]
-body// " ++ [27880; 37322]%N ++ runes_of_ascii "
-`line1
-line2` , } packet
-    // packet A { u8 x, }
-    uint8x {@rightPad  ( '0' )
-    //	t
-    char[]stringy,MetaDataX Z9_ , i8 Logon , } root packet
-    //	t
-    u // " ++ [128512]%N ++ runes_of_ascii " emoji
-{ int64 Z9_
-    , zchar[ 00 ]
-    string_
-    //
-    `" ++ [28040; 24687; 31867; 22411]%N ++ runes_of_ascii "` ,
-    @calculatedFrom(""a\""b""
-    )
-@tag( 3  ) @rightPad (
-'0' ) repeat u32 packetx `two words` , char[42
-] string_ , repeat Header lengthOf ,
-}
-options // packet A { u8 x, }
-{	} packet Header
-// " ++ [128512]%N ++ runes_of_ascii " emoji
-// packet A { u8 x, }
-{ @rightPad
-(//x
-)metadata { char[ 65535// c
-]o, repeat x
-// c
-/// triple
-{char[
-4294967296 ]  options1 , }
-// c
-// a // b
-,
-roots Header, } , }
-")).
-Eval vm_compute in ("<<<M143>>>" ++ check (runes_of_ascii "
-packet  lengthOf
-{  @tag( 65535
-/// triple
-//	t
-)@tag( //	t
-3 ) @tag( 0123456789) options1 @calculatedFrom(""abc""
-    ) , @rightPad
-( '0')falsey @lengthOf( a1  )
-    ,
-    @lengthOf(Pad
-)body @calculatedFrom( // " ++ [128512]%N ++ runes_of_ascii " emoji
-""packet"" ) // trailing space 
-,
-} packet int
-{ string Foo @calculatedFrom(""CRC32"" ) ,}
-root
-// trailing space 
-//	t
-packet uint8x
-    {}
-root packet len { x_y_z
-_x ,
-    BodyLength rootA
-/// triple
-//
-,
-match f32a as Logon
-    {[ ""a\""b"" ,
-""" ++ [28040; 24687]%N ++ runes_of_ascii """
-    ,
-    """ ++ [128512]%N ++ runes_of_ascii """
-,65535, 00 ,4294967296
-    ,
-"""" ,""abc"" ]
-    : roots,[
-    00 ] :
-A ,  [
-    65535
-// a // b
-// trailing space 
-,
-// trailing space 
-// " ++ [128512]%N ++ runes_of_ascii " emoji
-65535
-, """" ]
-// c
-// packet A { u8 x, }
-:
-// " ++ [128512]%N ++ runes_of_ascii " emoji
-// trailing space 
-pack ,
-    }
-    // trailing space 
-    ,repeat Pad `say ""hi""` ,
-    /// triple
-    a1 calculatedFrom
-    ,
-@lengthOf( stringy )char[] As @calculatedFrom( ""\" ++ [233]%N ++ runes_of_ascii """ )
-, zchar[ 0123456789 ] Z9_
-    @lengthOf( repeatCount ) // packet A { u8 x, }
-`a\`
-, repeat // `tick` ""quote"" 'q'
-string lengthOf , //x
-u8 falsey @calculatedFrom(
-""a\\"" )  ,@calculatedFrom( ""it's"") string calculatedFrom @lengthOf( MetaDataX ) ,}")).
-Eval vm_compute in ("<<<M289>>>" ++ check (runes_of_ascii "options  {
-// " ++ [27880; 37322]%N ++ runes_of_ascii "
-//x
-float // packet A { u8 x, }
-=char[]
-    // @lengthOf(
-    ; Header = false
-//
-/// triple
-}
-    // `tick` ""quote"" 'q'
-    options {	x =char[] ; }	MetaData i64_{f64 As
-    /// triple
-    `
-` , repeatCount MetaDataX
-// `tick` ""quote"" 'q'
-// `tick` ""quote"" 'q'
-,
-repeatCount u128 //x
-,	metadata msg_type `tab	here`
-    ,
-    }
-packet  options1
-    {
-    repeat char[0123456789] T  , @tag(  65535
-)
-    //x
-    @calculatedFrom( ""CRC32""
-) @calculatedFrom( """ ++ [28040; 24687]%N ++ runes_of_ascii """ ) repeat string
-Logon
-    ,	@lengthOf( u128 )
-stringy  {string_ x ,
-} , @tag( // " ++ [27880; 37322]%N ++ runes_of_ascii "
-10) u64 tag @lengthOf(roots), Foo	@lengthOf(
+Eval vm_compute in ("<<<M1930>>>" ++ check (runes_of_ascii "//	t
+
+packet 
+MetaDataX
+
+{@leftPad(  )
+repeat
+
+    float64 
+asx 
+, } MetaData 
 Foo
-)`// not a comment` ,
-string pack `a\` , match A
-    as charz {
-[ 3 ] : x ,} ,@tag(42 ) f64 msg_type @lengthOf(
-trueish )
-,match	pack /// triple
-as
-options1 { """ ++ [28040; 24687]%N ++ runes_of_ascii """ : // packet A { u8 x, }
-string_ ,	[ 65535, 7 ,
-""a\""b""
-    , 7]//	t
-: f32a 4294967296: o ,  }	,
-    char[] falsey ,
-} // " ++ [128512]%N ++ runes_of_ascii " emoji")).
-Eval vm_compute in ("<<<M371>>>" ++ check (runes_of_ascii "root
-    packet
-packetx
-    {
-    @tag( 0) char[00 ] Z9_
-    ,
-    // a // b
-    falsey
-    // c
-    { match
-    x as options1 { [//	t
-42 ,
-    007 ]:
-    uint8x } , uint8 falsey `crlf
-line` , }
-, f64 Pad
-, @tag(7  ) string Logon// " ++ [27880; 37322]%N ++ runes_of_ascii "
-`a\`, @lengthOf(
-lengthOf//	t
-) char[
-3
-    ]
-// " ++ [27880; 37322]%N ++ runes_of_ascii "
-//
-calculatedFrom @calculatedFrom(
-""" ++ [28040; 24687]%N ++ runes_of_ascii """
-)
-, char[]
-    T , //x
-@tag(
-42 ) @leftPad ( )
-    char[]trueish
-@calculatedFrom(""`tick`"" ) ,match
-    // `tick` ""quote"" 'q'
-    uint8x as pack { [
-    ""abc"",
-    ""1"" ,""packet""
-,
-// `tick` ""quote"" 'q'
-// `tick` ""quote"" 'q'
-1,
-    ""a\""b""]: As	, """ ++ [28040; 24687]%N ++ runes_of_ascii """ :
-    trueish ,} ,
-}
-packet/// triple
-charz
+{  // a // b
+	char[
+65535
+	]Pad , }
+    packet body  // 50% %s
 {
-    repeat
-Z9_ { Pad  {match len as string_{
-    // a // b
-    4294967296
-    : msg_type , [""// no comment""
-    ] :u
-    ,
-} ,} , zchar[
-    65535
-] As  @lengthOf(//x
-string_
-)
-,
-} ,
-    }")).
-Eval vm_compute in ("<<<M1400>>>" ++ check (runes_of_ascii "root packet i64_ {
-    trueish,
-    @calculatedFrom(""abc"")
-    @tag(7)
-    // c
-    int16 asx,
-    @calculatedFrom(""a\\"")
-    float32 crc @lengthOf(Foo),
-    @tag(42)
-    zchar[7] asx @lengthOf(calculatedFrom) `// not a comment`,//
-    repeat zchar[1] As,
-    chars `two words`,
-    @calculatedFrom(""1"")
-    @tag(0123456789)
-    @leftPad('0')
-    repeat char[] BodyLength `tab	here`,
-}
 
-MetaData u128 {
-    u16 i64_,
-    float32 asx `two words`,//
-    i64 leftPad,
-    zchar[00] _x,//
-}
+    match 
+asx	as
+    charz
+{  // `tick` ""quote"" 'q'
+	  10
+: u8x	,
 
-MetaData chars {
-    Foo crc `say ""hi""`,
-    uint8 u `two words`,// " ++ [128512]%N ++ runes_of_ascii " emoji
-    f32 pack `crlf
-        line`,
-    string _x `" ++ [233]%N ++ runes_of_ascii "`,
-}
+    ""it's""
+    : 
+leftPad
 
-packet x_y_z {
-}
-
-options {
-    calculatedFrom = ""CRC32""
-    crc = uint16;
-    u = false
-    Foo = char
-}// " ++ [128512]%N ++ runes_of_ascii " emoji")).
-Eval vm_compute in ("<<<M288>>>" ++ check (runes_of_ascii "// packet A { u8 x, }
-MetaData
-    _x
-{ //
-char[] len
-    ,}options
-// @lengthOf(
-//
-{ repeatCount =""""
-    ; }// c
-root packet chars {
-    char[ 255
-]u8x,	repeat
-/// triple
-// c
-string repeatCount
-`" ++ [28040; 24687; 31867; 22411]%N ++ runes_of_ascii "` ,
-repeat zchar[ 10
+    , 3
+: metadata 
+        // trailing space 
+    //x
+  	, ""it's""
+    : x, [ 65535 ,  """ ++ [233]%N ++ runes_of_ascii "t" ++ [233]%N ++ runes_of_ascii """
 ]
-string_ , @tag( // trailing space 
-255
-    ) i8i8{// packet A { u8 x, }
-options1
-calculatedFrom `u8 x,`
-,
-    i64
-len,
-    roots // c
-{ // @lengthOf(
+	:
+    u128  ,
+    10
+
+:	// @lengthOf(
+
+len
+	},repeat
+f32  rootA
+	``
+
+    , // 50% %s
+  @leftPad( 
+
+//
+  ' '
+    )
+
 repeat
-    // a // b
-    i64_ zchar //
-,
-    } ,
+
+    i64  BodyLength // c
+  , repeatCount
+
+    {
+i16  crc
+@lengthOf(	u128
+
+)  ,
     }
-, match chars as Packet	{
-""a\""b"": Pad
-,[ ""{,}""
-    ]
-:
-calculatedFrom // a // b
+    ,
+u16  // " ++ [27880; 37322]%N ++ runes_of_ascii "
+	  u  @lengthOf( f32a
+
+    ) 
+`// not a comment` , // trailing space 
+  len
+{
+
+match
+    Logon
+as // @lengthOf(
+      Foo
+	{""" ++ [233]%N ++ runes_of_ascii "t" ++ [233]%N ++ runes_of_ascii """
+	: stringy
+
+    ,
+10 :msg_type ,  //	t
+	[
+""\n""
+,""`tick`""
 ,
-""" ++ [233]%N ++ runes_of_ascii "t" ++ [233]%N ++ runes_of_ascii """
+""abc""
+
+,""""  ,  007  ,  1 
+,	""a\""b""
+	]  :
+i64_ 	 // packet A { u8 x, }
+
+  ,255  
+  //x
+    : T
+    ,
+
+""{,}"":
+f32a
+    },
+
+string
+
+    tag @lengthOf(Z9_ ), 
+  // a // b
+u32 charz
+    `crlf
+line`	,
+u8x @lengthOf( 	 /// triple
+      rootA
+    )
+,}, float
+	,
+int8  repeatCount
+@lengthOf(f32a
+
+)
+`crlf
+line`
+
+    ,
+    zchar[
+    // packet A { u8 x, }
+      7  // a // b
+	]
+    BodyLength 
+@lengthOf(  string_  // a // b
+
+)	,
+
+    } 
+packet u128  {	x  `// not a comment`,
+}//
+
+packet
+
+x { 
+A`doc`
+
+    ,
+	Packet 
+@calculatedFrom(	// `tick` ""quote"" 'q'
+    ""\" ++ [233]%N ++ runes_of_ascii """
+    )
+
+`say ""hi""` , repeat  string
+asx 
+, @lengthOf(
+
+MetaDataX
+
+)
+	repeat char[4294967296  //
+		] 
+string_	`u8 x,`
+
+,
+@lengthOf( charz ) char[
+
+    0123456789
+	]
+	f32a
+    `say ""hi""`
+,  }
+
+")).
+Eval vm_compute in ("<<<M381>>>" ++ check (runes_of_ascii "options {
+    StringPrefixLenType = u16;
+    ArrayPrefixLenType = u16;
+}
+
+packet SampleBinary {
+    uint16 MsgType `" ++ [28040; 24687; 31867; 22411]%N ++ runes_of_ascii "`,
+    u16 BodyLenght @lengthOf(Body) `" ++ [28040; 24687; 20307; 38271; 24230]%N ++ runes_of_ascii "`,
+    match MsgType as Body {
+        1 : Logon,
+        2 : Logout,
+        3 : Heartbeat,
+        4 : RiskControlRequest,
+        5 : RiskControlResponse,
+    },
+    @calculatedFrom(""CRC32"")
+    u32 Ckecksum `" ++ [26657; 39564; 21644]%N ++ runes_of_ascii "`,
+}
+
+packet Logon {
+    @leftPad('0')
+    char[10] UserName `" ++ [29992; 25143; 21517]%N ++ runes_of_ascii "`,
+    string Password `" ++ [23494; 30721]%N ++ runes_of_ascii "`,
+    uint64 ClientId `" ++ [23458; 25143; 31471]%N ++ runes_of_ascii "ID`,
+    u16 HeartbeatInterval `" ++ [24515; 36339; 38388; 38548]%N ++ runes_of_ascii "`,
+}
+
+packet Logout {
+    @rightPad('0')
+    char[10] UserName `" ++ [29992; 25143; 21517]%N ++ runes_of_ascii "`,
+    uint64 ClientId `" ++ [23458; 25143; 31471]%N ++ runes_of_ascii "ID`,
+}
+
+packet Heartbeat {
+}
+
+packet RiskControlRequest {
+    string UniqueOrderId `" ++ [21807; 19968; 35746; 21333; 21495]%N ++ runes_of_ascii "`,
+    char[16] ClOrdID `" ++ [23458; 25143; 35746; 21333; 21495]%N ++ runes_of_ascii "`,
+    char[3] MarketID `" ++ [24066; 22330]%N ++ runes_of_ascii "id`,
+    char[12] SecurityID `" ++ [35777; 21048; 20195; 30721]%N ++ runes_of_ascii "`,
+    char Side `" ++ [20080; 21334; 26041; 21521]%N ++ runes_of_ascii "`,
+    char OrderType `" ++ [35746; 21333; 31867; 22411]%N ++ runes_of_ascii "`,
+    u64 Price `" ++ [20215; 26684]%N ++ runes_of_ascii "`,
+    u32 Qty `" ++ [25968; 37327]%N ++ runes_of_ascii "`,
+    repeat string ExtraInfo `" ++ [38468; 21152; 20449; 24687]%N ++ runes_of_ascii "`,
+    repeat SubOrder {
+        char[16] ClOrdID `" ++ [23376; 35746; 21333; 21495]%N ++ runes_of_ascii "`,
+        u64 Price `" ++ [23376; 35746; 21333; 20215; 26684]%N ++ runes_of_ascii "`,
+        u32 Qty `" ++ [23376; 35746; 21333; 25968; 37327]%N ++ runes_of_ascii "`,
+    },
+}
+
+packet RiskControlResponse {
+    string UniqueOrderId `" ++ [21807; 19968; 35746; 21333; 21495]%N ++ runes_of_ascii "`,
+    i32 Status `" ++ [29366; 24577]%N ++ runes_of_ascii "`,
+    string Msg `" ++ [32467; 26524; 20449; 24687]%N ++ runes_of_ascii "`,
+    repeat Detail,
+}
+
+packet Detail {
+    string RuleName `" ++ [35268; 21017; 21517; 31216]%N ++ runes_of_ascii "`,
+    u16 Code `" ++ [21407; 22240; 20195; 30721]%N ++ runes_of_ascii "`,
+}")).
+Eval vm_compute in ("<<<M259>>>" ++ check (runes_of_ascii "root packet u8x {
+    body@lengthOf( i64_ )
+`` , @lengthOf(Foo )
 //x
 // `tick` ""quote"" 'q'
-: uint8x ,[ // packet A { u8 x, }
-""`tick`"" ,0
-    , 42
-    ] : _x[ 0123456789	, ""\" ++ [233]%N ++ runes_of_ascii """
-    ] :
-i8i8,	} ,	}
-")).
-Eval vm_compute in ("<<<M208>>>" ++ check (runes_of_ascii "packet // packet A { u8 x, }
-u8x {}root packet
-    matchKey{
-repeat zchar[ 0123456789 ] // packet A { u8 x, }
-int , char[
-// `tick` ""quote"" 'q'
-// a // b
-4294967296 ]
-asx `{ , }`
-    ,
-repeat i8i8, repeat Packet { repeat
-    leftPad {	f32 u128
-@lengthOf(As ), body`two words` ,// packet A { u8 x, }
-rootA Pad , } , char[ 00
-] msg_type `tab	here` // " ++ [128512]%N ++ runes_of_ascii " emoji
-,
-    repeat
-    //x
-    i64_ `doc` , zchar x_y_z ,}
-,
-}
-root
-packet int {
-repeat f32a {repeat f32a  asx
-`u8 x,` ,} ,@lengthOf(
-// @lengthOf(
-//	t
-msg_type// packet A { u8 x, }
-) body ,
-// c
-//
-Z9_ // c
-zchar `a\` //x
-, } //x")).
-Eval vm_compute in ("<<<M66>>>" ++ check (runes_of_ascii "packet	int {// @lengthOf(
-repeat
-string
-    BodyLength
-    `a\`
-    , } packet repeatCount { @lengthOf( x_y_z ) crc ,
-    match Packet as
-Z9_{""// no comment"" :MetaDataX ,
-//	t
-// a // b
-[  00, 7]: chars ,""CRC32""
-    : zchar 42: stringy //	t
-, [ ""a\""b"",""1""// a // b
-] : u ,
-},
-@rightPad
-( ' ' )
-@lengthOf( i64_//x
+string_@lengthOf(	int ), @lengthOf(
+rootA//	t
+) @tag( 255 // c
 )
-    repeat
-f64
-x `two words`
-    , @calculatedFrom(""`tick`""	) int64 falsey @lengthOf(//x
-u128 ) , charz
-    {
-    //x
-    char[]
-    T
+    match Logon  as roots { 1 : x_y_z, } , }
+    packet len {
+@tag( 0123456789
+)  @leftPad ( '\x00' ) i8i8 {
+//x
+// @lengthOf(
+len `u8 x,` , } , @tag(
+    0123456789// 50% %s
+) u8x A, char[ 007 ]
+    int
+    , @leftPad (
+'\x00')
+float64 len
+    `100% of %d`, }
+    packet crc {
+// `tick` ""quote"" 'q'
+// `tick` ""quote"" 'q'
+match
+calculatedFrom as leftPad { [ // packet A { u8 x, }
+""" ++ [233]%N ++ runes_of_ascii "t" ++ [233]%N ++ runes_of_ascii """ ]  :Foo ""1"" :
+Packet , 1 : stringy [	4294967296
+    // c
+    ,
+""a	b"" ]: leftPad, [ """ ++ [233]%N ++ runes_of_ascii "t" ++ [233]%N ++ runes_of_ascii """,
+""""
+,4294967296 , 0123456789 ,	4294967296  ,
+    ""CRC32"" , 0123456789  ,"""" ] : rootA
+} ,  @rightPad (
+    ) roots {
+As //x
+, repeat
+zchar[1 ]falsey, repeat char[] repeatCount, } //	t
+, roots  `a\`, match
+    charz
+    as i8i8  {  [ ""\" ++ [233]%N ++ runes_of_ascii """, """ ++ [233]%N ++ runes_of_ascii "t" ++ [233]%N ++ runes_of_ascii """ ] :
 // c
-// " ++ [27880; 37322]%N ++ runes_of_ascii "
-`a\` ,
+// @lengthOf(
+o // @lengthOf(
+, 42
+    : matchKey ,
+    00 : body,
+""a\\""
+    :
+    rootA
+,} ,
+    }")).
+Eval vm_compute in ("<<<M1356>>>" ++ check (runes_of_ascii "options {
+    LittleEndian = false;
+    StringPrefixLenType = u16;
+    ArrayPrefixLenType = u8;
+    FixedStringPadChar = '0';
 }
-,@lengthOf(
-    u8x)string_, repeat
+packet Leg {
+    zchar[1] Ref,
+    repeat string count,
+    repeat InMsgkind21 {
+        repeat char[2] price,
+        uint64 sym,
+        zchar[9] msgKind,
+    },
+    zchar[5] Note,
+}
+packet Ack {
+    u16 seqNo,
+    repeat char[1] Acct,
+    @leftPad(' ') char[4] msgKind,
+    repeat InTag747 {
+        Leg,
+    },
+    repeat string Tail,
+    Leg,
+}
+packet Trade {
+    u64 clOrdID,
+    repeat InLastpx24 {
+        char[10] Note,
+        char[3] Qty,
+        repeat char[2] Side2,
+        Ack,
+        repeat InX47 {
+            Ack,
+        },
+    },
+}
+root packet Heartbeat {
+    repeat u64 Acct,
+    string lastPx,
+    u8 Side2,
+    match Side2 as Body {
+        2 : Trade,
+        157 : Ack,
+        46 : Leg,
+    },
+    u32 sym @calculatedFrom(""CRC32""),
+}
+")).
+Eval vm_compute in ("<<<M1905>>>" ++ check (runes_of_ascii "options  {
+	ArrayPrefixLenType
+
+=u32 ;	FixedStringPadFromLeft
+
+    =
+false
+; 
+FixedStringPadChar
+=
+    '0' ;
+} packet
+Trade
+
+{
+repeat
+	InVenue78 {u16
+tag7
+
+,
+
+repeat InLastpx9
+{
+u8
+pad0	, }
+
+    ,	int64
+
+Tail,
+
+    repeat InQty37
+{char[2
+	] OrderId
+,zchar[ 6 ]
+
+    lastPx  , int64
+Qty,}
+	, uint8
+Side2	,
+}
+, 
+}
+
+    packet
+
+    Logon  { repeat  string venue  ,
+    @rightPad  (
+'\x00'
+)
+
+char[ 3
+
+    ]
+sym
+,	zchar[ 9 ] count	,zchar[  7
+]
+    f1, Trade , }  packet 
+Logout 
+{  }  root	packet
+
+    Reject {
+int32 sym ,  u8	Px
+,
+u32
+
+    Tail @lengthOf(	Body ) , match  Px
+as 
+Body 
+{184 :
+Trade
+    ,
+	173 
+: 
+Logon
+
+    ,  12 
+:Logout
+    ,}
+	,
+    u32
+    tag7
+@calculatedFrom(
+""CRC32"")
+    ,
+	}
+")).
+Eval vm_compute in ("<<<M1523>>>" ++ check (runes_of_ascii "packet x_y_z {
+    @tag(1)
+    string u @calculatedFrom(""`tick`""),
+}
+
+packet chars {
+    char[00] crc `two words`,
+    @lengthOf(calculatedFrom)
+    uint64 _x `
+    `,
+    match Logon as falsey {
+        [
+            ""`tick`"", ""\n"", 007, 007, 1,
+            3, ""it's""
+        ] : options1,
+        [42, """ ++ [28040; 24687]%N ++ runes_of_ascii """] : msg_type,
+        007 : string_,
+    },// 50% %s
+    repeatCount lengthOf,
+    @tag(007)
+    Pad,
+}
+
+packet A {
+    @calculatedFrom(""CRC32"")
+    @lengthOf(zchar)
+    repeatCount {
+        zchar[0] stringy `two words`,
+    },
+    i16 falsey,
+    match A as tag {
+        3 : i64_,
+        [0123456789] : chars,
+        7 : options1,
+    },
+}")).
+Eval vm_compute in ("<<<M1702>>>" ++ check (runes_of_ascii "  packet
+o
+
+    {
+    zchar[  7
+
+    ] 	 /// triple
+	f32a
+
+    @calculatedFrom(
+    ""a\""b""
+
+    )
+
+,
+@lengthOf(pack
+
+    )
+
+options1
+,@calculatedFrom( 
+""abc"" )Header
+
+    , 
+@lengthOf(
+Logon)
+
+    zchar[ 4294967296
+]
+
+    asx// packet A { u8 x, }
+    @lengthOf(
+	    // a // b
+  // packet A { u8 x, }
+  u
+
+)
+`100% of %d`  ,
+	@leftPad
+( ' '// trailing space 
+	)
+@calculatedFrom( ""`tick`""
+
+    )  uint16  x_y_z`doc` ,
+@tag(00
+)
+    zchar[ //	t
+
+	1 ]	// c
+u
+,
+    @calculatedFrom(
+
+    ""a\""b""
+
+) 	 //
+	u8x
+    uint8x 
+,  char[
+1]
+metadata  ,
+    }
+")).
+Eval vm_compute in ("<<<M1371>>>" ++ check (runes_of_ascii "options {
+
+LittleEndian  =	true
+
+    ;	ArrayPrefixLenType  =
+u32 ; 
+FixedStringPadChar 
+=
+' ';
+}
+
+    packet
+    Order 
+{ char[
+5 ]
+    seqNo ,	uint8	Px , } packet 
+Logon
+{ @rightPad
+    ('\x00'
+)
+char[  8 ]Flags
+
+    ,
+    zchar[ 
+3
+]
+
+    count
+
+,	repeat
+
+    Order
+    ,
+}
+    root
+
+packet Party
+	{ repeat 
+Logon ,repeat
+
+    char[
+1
+	]
+	x , 
+u32
+price ,u32
+Side2
+	@lengthOf(
+Body
+	)	,	match	price
+
+as 
+Body 
+{
+    49
+
+: Order,
+
+196:
+
+Logon  ,
+	}  , u32
+f1 @calculatedFrom(	""CRC32""
+
+)  ,	}
+
+")).
+Eval vm_compute in ("<<<M1705>>>" ++ check (runes_of_ascii "packet x_y_z {
+    repeat asx {
+        falsey @lengthOf(u) `100% of %d`,
+        repeat matchKey {
+            x_y_z @calculatedFrom(""a\\""),
+            i64 calculatedFrom @calculatedFrom(""// no comment"") `{ , }`,
+        },
+        // c
+        //	t
+        char[007] Foo @calculatedFrom(""abc""),
+    },
+    repeat uint32 Pad,
+    repeat Logon {
+        Logon {
+            char[] packetx @calculatedFrom(""it's"") `
+            `,
+        },
+        i8 len,
+        asx,
+    },
+}")).
+Eval vm_compute in ("<<<M287>>>" ++ check (runes_of_ascii "packet BodyLength { } packet tag
+{ repeat Logon //
+{ u @calculatedFrom(
+    ""// no comment"" ) `crlf
+line`  ,  char u8x , uint32
+    uint8x ,},} packet T
+{  float32  Z9_ , @lengthOf(
+    pack
+)@calculatedFrom( ""`tick`"" )@lengthOf(u8x )
+u {
+    // `tick` ""quote"" 'q'
+    match
+    repeatCount as u
+//x
+/// triple
+{  ""// no comment"" : packetx , //	t
+1 :falsey
+, } , Z9_ @calculatedFrom(
+    """" ) `doc` , }// @lengthOf(
+,
+    } /// triple")).
+Eval vm_compute in ("<<<M1348>>>" ++ check (runes_of_ascii "  packet
+
+NewOrder
+	{
+u32 
+qty , }
+packet
+Cancel
+
+{	u64 id, } packet Business
+
+{
+	u8
+Kind
+, match
+
+    Kind	as Detail
+{ 1:	NewOrder ,
+
+2 :	Cancel
+    ,
+    } 
+,}packet
+
+    TcpFrame {
+    u8	T  ,
+match
+	T
+    as
+Body
+{	1
+:  Business  , }	,
+} packet 
+UdpFrame {
+
+    u8  U,
+match  U
+
+    as
+Body{1
+: Business
+, } ,	Business extra
+
+    , }root
+packet 
+Wire 
+{
+TcpFrame ,	UdpFrame,
+
+    }
+")).
+Eval vm_compute in ("<<<M334>>>" ++ check (runes_of_ascii "
+packet Header  { @lengthOf( //
+MetaDataX )char[] Z9_ @calculatedFrom( ""CRC32"")
+    `u8 x,` ,} packet //
+a1	{ @lengthOf( As// " ++ [128512]%N ++ runes_of_ascii " emoji
+)
+// c
+// trailing space 
+repeat rootA
+/// triple
+// " ++ [128512]%N ++ runes_of_ascii " emoji
+Header // @lengthOf(
+,
+    @tag( 255 )
+//
+// " ++ [128512]%N ++ runes_of_ascii " emoji
+zchar[255 ] A @calculatedFrom(
+""{,}"" ) `{ , }` ,@lengthOf(
+    Header ) uint8 leftPad@calculatedFrom(""" ++ [233]%N ++ runes_of_ascii "t" ++ [233]%N ++ runes_of_ascii """ ) ,// " ++ [128512]%N ++ runes_of_ascii " emoji
+}")).
+Eval vm_compute in ("<<<M180>>>" ++ check (runes_of_ascii "packet Logon{char[ 0123456789 ]Pad	`a\`
+, match pack //	t
+as As {
+[ ""1"" , ""a	b"" ,
+0,""packet"" ] // @lengthOf(
+: u, 7
+    :
+asx  , } , @lengthOf(
+Logon
+) match
+    A as zchar //
+{10 :
+o ,
+    }
+,
+    @leftPad (// " ++ [128512]%N ++ runes_of_ascii " emoji
+'0') o {
+repeat f32
+Logon
+,
+repeatCount
+    @calculatedFrom(
+    ""\n"" ),
+// @lengthOf(
+// `tick` ""quote"" 'q'
+} , }")).
+Eval vm_compute in ("<<<M307>>>" ++ check (runes_of_ascii "packet
+a1
+{ zchar[ 0] x`say ""hi""` , } packet // trailing space 
+BodyLength {
+    match Pad
+as A {""\n"" : len } , } MetaData repeatCount
+    {
+string tag ,
+    }
+    MetaData trueish {u128 string_ ,
+char[ 00 // trailing space 
+] o
+    , string tag,  } packet calculatedFrom { BodyLength `tab	here`, }
+
+")).
+Eval vm_compute in ("<<<M108>>>" ++ check (runes_of_ascii "packet matchKey {repeat len{ zchar,
+match Foo as x { 65535 : asx , 65535 :
 // " ++ [128512]%N ++ runes_of_ascii " emoji
 //	t
-x
-    , }
-")).
-Eval vm_compute in ("<<<M1910>>>" ++ check (runes_of_ascii "packet Logon {
-    repeatCount {
-        BodyLength `crlf
-                line`,
-    },
-    zchar a1 `u8 x,`,
-    match Foo as Foo {
-        ""\n"" : i8i8,
-        [""abc"", ""CRC32""] : crc,
-        [
-            3, ""x y"", 42, ""`tick`"", 1,
-            ""a\""b"", ""CRC32"", 255
-        ] : repeatCount,
-        [
-            1, 007, ""\n"", 007, 7,
-            ""// no comment"", 255
-        ] : uint8x,
-        00 : f32a,
-    },
-    // a // b
-    uint16 Pad @lengthOf(uint8x) `doc`,
-}")).
-Eval vm_compute in ("<<<M1375>>>" ++ check (runes_of_ascii "options {
-    LittleEndian = true;
-    StringPrefixLenType = u64;
-    ArrayPrefixLenType = u16;
-    FixedStringPadFromLeft = false;
-    FixedStringPadChar = ' ';
-}
-packet Logon {
-    zchar[5] Side2,
-}
-root packet Logout {
-    repeat i64 Tail,
-    Logon,
-    repeat i16 OrderId,
-    char[] venue,
-    uint64 x,
-    repeat i16 count,
-    u8 Flags,
-    match Flags as Body {
-        25 : Logon,
-    },
-    u16 Qty @calculatedFrom(""CRC32""),
-}
-")).
-Eval vm_compute in ("<<<M1271>>>" ++ check (runes_of_ascii "options { // c1a
-  // c1b
-LittleEndian
-    // c2
-= // c3
-true // c4
-; } // c6a
-  // c6b
-packet B { u8 // c10a
-  // c10b
-a
-    // c11
-, // c12a
-  // c12b
-string // c13
-s // c14
-, } // c16
-root // c17a
-  // c17b
-packet
-    // c18
-P // c19
-{ u16 // c21
-L @lengthOf( B ) // c25a
-  // c25b
-, // c26a
-  // c26b
-B // c27a
-  // c27b
+charz 1 : BodyLength ,
+""{,}"": falsey, 1 :zchar, } , }  , }  MetaData // 50% %s
+zchar
+    // packet A { u8 x, }
+    {zchar[7 ] trueish ,u16 matchKey	,
+} options {
+MetaDataX	=
+false }")).
+Eval vm_compute in ("<<<M434>>>" ++ check (runes_of_ascii "packet
+    asx { @calculatedFrom(
+""""  ) @tag( 255 )@calculatedFrom(
+// packet A { u8 x, }
+// trailing space 
+int16 u8x
 ,
-    // c28
-u8
-    // c29
-t // c30
-, // c31
-} // c32a
-  // c32b
-")).
-Eval vm_compute in ("<<<M15>>>" ++ check (runes_of_ascii "MetaData // c
-u128{
-    }MetaData
-    a1 {
-}
-    root packet	o {	char[
-10 ]  stringy @lengthOf( Z9_) ,
-match
-x_y_z as stringy
-{	3
-: float ,
-    } , @leftPad //	t
-( ' '
-    ) u128 {	repeat i32 msg_type `crlf
-line` , x	, repeat char[	65535
-] T, match
-    A as
-i8i8 { """ ++ [128512]%N ++ runes_of_ascii """ : Logon
-, } //
-, } ,
-@rightPad (  '\x00') repeat x_y_z options1 `two words` , }
-")).
-Eval vm_compute in ("<<<M194>>>" ++ check (runes_of_ascii "// `tick` ""quote"" 'q'
-options
-    //	t
-    { }  packet lengthOf // `tick` ""quote"" 'q'
-{  } packet
-// a // b
-// " ++ [27880; 37322]%N ++ runes_of_ascii "
-Foo {
 @tag(
-1
-) string
-uint8x ,_x { chars  , string uint8x , i64 _x //
-`it's`
-    , repeat uint8 As,	}
-, float32
-f32a , @leftPad( '\x00')
-    @calculatedFrom( """ ++ [28040; 24687]%N ++ runes_of_ascii """
-) // trailing space 
-uint8 Logon
+    //
+    007 )
+    @tag( 0
+    /// triple
+    ) @tag( 1) u
+    @lengthOf( T ),
+// `tick` ""quote"" 'q'
+//x
+} // " ++ [128512]%N ++ runes_of_ascii " emoji")).
+Eval vm_compute in ("<<<M546>>>" ++ check (runes_of_ascii "packet
+    caf" ++ [233]%N ++ runes_of_ascii "_1 { @calculatedFrom(
+""""  ) @tag( 255 )repeat
+// packet A { u8 x, }
+// trailing space 
+int16 u8x
 ,
-    }")).
-Eval vm_compute in ("<<<M1384>>>" ++ check (runes_of_ascii "
-options
+@tag(
+    //
+    007 )
+    @tag( 0
+    /// triple
+    ) @tag( 1) u
+    @lengthOf( T ),
+// `tick` ""quote"" 'q'
+//x
+} // " ++ [128512]%N ++ runes_of_ascii " emoji")).
+Eval vm_compute in ("<<<M541>>>" ++ check (runes_of_ascii "packet
+    asx { @calculatedFrom(
+""""  ) @tag( 255 )repeat
+// packet A { u8 x, }
+// trailing space 
+int16 u8x
+,
+@tag(
+    //
+    007@ )
+    @tag( 0
+    /// triple
+    ) @tag( 1) u
+    @lengthOf( T ),
+// `tick` ""quote"" 'q'
+//x
+} // " ++ [128512]%N ++ runes_of_ascii " emoji")).
+Eval vm_compute in ("<<<M509>>>" ++ check (runes_of_ascii "packet
+    asx { @calculatedFrom(
+""""  ) @tag( 255 )repeat
+// packet A { u8 x, }
+// trailing space 
+int16 u8x
+,
+@tag(
+    //
+    007 )
+    @tag( 0
+    /// triple
+    ) @tag( 1) u
+    @lengthOf( , ),
+// `tick` ""quote"" 'q'
+//x
+} // " ++ [128512]%N ++ runes_of_ascii " emoji")).
+Eval vm_compute in ("<<<M436>>>" ++ check (runes_of_ascii "packet
+    asx { @calculatedFrom(
+""""  ) @tag( 255 )repeat
+// packet A { u8 x, }
+// trailing space 
+ u8x
+,
+@tag(
+    //
+    007 )
+    @tag( 0
+    /// triple
+    ) @tag( 1) u
+    @lengthOf( T ),
+// `tick` ""quote"" 'q'
+//x
+} // " ++ [128512]%N ++ runes_of_ascii " emoji")).
+Eval vm_compute in ("<<<M1324>>>" ++ check (runes_of_ascii "options	{	FixedStringPadChar =	'0'
+;
+	}
+
+    packet 
+Q{ zchar[ 4]z,  @rightPad
+
+('\x00')
+
+    char[
+
+    3]
+n  ,
+	char[ 5 ] 
+d  , }
+	root	packet R
 	{
-LittleEndian =	true
-; }
-	packet 
-Logon {
+    Q
 
-    u8
+,
+zchar[  8	]
 
-x ,  string user
+top 
+, repeat  zchar[
+    2  ] zs
 ,}
-packet
-    Logout 
+")).
+Eval vm_compute in ("<<<M184>>>" ++ check (runes_of_ascii "  root packet body
+    {
+string chars `" ++ [233]%N ++ runes_of_ascii "` , repeat uint8x, match uint8x as x // `tick` ""quote"" 'q'
 {
-
-u16
-	reason,
-} packet
-
-Empty
-	{
-
+    007
+    //	t
+    :
+// c
+// @lengthOf(
+calculatedFrom , }	,
+string_  falsey `
+`
+    ,
 }
-    root 
-packet
 
-    Frame
+")).
+Eval vm_compute in ("<<<M1252>>>" ++ check (runes_of_ascii "// top
+root // c0a
+  // c0b
+packet // c1a
+  // c1b
+P // c2a
+  // c2b
 {
-	u16 MsgType
-    , 
-u8 BodyLen
-
-    @lengthOf(Body
-
-    ) , u8	flags ,	Logon
-Body ,
-
-    u32
-	trailer
-
-    ,}")).
-Eval vm_compute in ("<<<M1320>>>" ++ check (runes_of_ascii "packet P1 {
-    u8 a,
+    // c3
+char
+    // c4
+c // c5
+,
+    // c6
+u8 // c7a
+  // c7b
+x
+    // c8
+, // c9a
+  // c9b
 }
-packet P2 {
-    P1,
-}
-packet P3 {
-    P2,
-    P1,
-}
-packet P4 {
-    repeat P3,
-    P2,
-}
-root packet P5 {
-    P4,
-    P3,
-    P1,
-    u8 K,
-    match K as Body {
-        4 : P4,
-        3 : P3,
-        2 : P2,
-        1 : P1,
-    },
+    // c10
+")).
+Eval vm_compute in ("<<<M629>>>" ++ check (runes_of_ascii "MetaData u
+    { } MetaData o
+{ float uint8x
+`100% of %d` ,repeatCount u8x, string_ leftPad
+float32 i32
+    Foo , int64 x `two words` , calculatedFrom
+stringy `a\` ,
 }
 ")).
-Eval vm_compute in ("<<<M1784>>>" ++ check (runes_of_ascii "packet i8i8 {
-    repeat char[00] Pad `a\`,
-    @leftPad('\x00')
-    string a1 @lengthOf(tag) ``,
-    float64 u128 @calculatedFrom(""1""),
-    @lengthOf(x)
-    u128 @lengthOf(tag) `" ++ [28040; 24687; 31867; 22411]%N ++ runes_of_ascii "`,
-    int64 u,
-    A T `say ""hi""`,
+Eval vm_compute in ("<<<M627>>>" ++ check (runes_of_ascii "MetaData u
+    { } MetaData o
+{ float uint8x
+`100% of %d` ,repeatCount u8x, string_ leftPad
+, , i32
+    Foo , int64 x `two words` , calculatedFrom
+stringy `a\` ,
+}
+")).
+Eval vm_compute in ("<<<M563>>>" ++ check (runes_of_ascii "MetaData u
+    { MetaData } o
+{ float uint8x
+`100% of %d` ,repeatCount u8x, string_ leftPad
+, i32
+    Foo , int64 x `two words` , calculatedFrom
+stringy `a\` ,
+}
+")).
+Eval vm_compute in ("<<<M556>>>" ++ check (runes_of_ascii "MetaData u
+     } MetaData o
+{ float uint8x
+`100% of %d` ,repeatCount u8x, string_ leftPad
+, i32
+    Foo , int64 x `two words` , calculatedFrom
+stringy `a\` ,
+}
+")).
+Eval vm_compute in ("<<<M1555>>>" ++ check (runes_of_ascii "// top
+options {
+    // c1a
+    // c1b
+    LittleEndian = true;
+}// c6a
+
+// c6b
+root packet P {
+    // c10
+    repeat char cs,
+    // c14
+    u8 x,
+    // c17
 }")).
-Eval vm_compute in ("<<<M92>>>" ++ check (runes_of_ascii "packet lengthOf { } root packet leftPad {  zchar[00// a // b
-]
-    Foo `` // c
-, @calculatedFrom( ""1"" )
-@leftPad (
-    ' '
-// trailing space 
-// " ++ [27880; 37322]%N ++ runes_of_ascii "
-)  @leftPad
-( ' ')
-repeat u8
-options1 , }")).
-Eval vm_compute in ("<<<M62>>>" ++ check (runes_of_ascii "packet
-crc { @leftPad //	t
-( ) repeat
-charz float
-    ,} root packet
-options1 {
-@tag( 65535/// triple
-)packetx
-{ u128 , f32 /// triple
-a1 ,
-    } , }
-// trailing space 
+Eval vm_compute in ("<<<M707>>>" ++ check (runes_of_ascii "MetaData u
+    { } MetaData o
+{ float uint8x
+`100% of %d` ,repeatCount u8x, string_ leftPad
+, i32
+    Foo , int64 x `two words` , a" ++ [769]%N ++ runes_of_ascii "b
+stringy `a\` ,
+}
 ")).
-Eval vm_compute in ("<<<M1645>>>" ++ check (runes_of_ascii "packet A {
+Eval vm_compute in ("<<<M1583>>>" ++ check (runes_of_ascii "packet A {
+    match k as n {
+        [
+            ""a"", ""bb"", ""c c"", ""d"", ""e"",
+            ""f"", ""g"", ""h""
+        ] : B,
+        2 : C,
+    },
+}")).
+Eval vm_compute in ("<<<M1651>>>" ++ check (runes_of_ascii "packet 
+A
+	{
+	u16
+	len
+    @lengthOf(
+    body	)  `a
+
+b`
+,
+	u32 crc @calculatedFrom(
+""CRC32""
+)
+
+    `a
+
+b`
+,string  body
+    ,
+	}
+
+")).
+Eval vm_compute in ("<<<M966>>>" ++ check (runes_of_ascii "packet A {
     Inner {
-        match k as n {
-            [
-                1, 22, 007, 4, 5,
-                66, 7, 8, 9
-            ] : B,
+        u8 x `100% of %s %d %v`,
+        Deep {
+            u8 y `100% of %s %d %v`,
         },
     },
 }")).
-Eval vm_compute in ("<<<M478>>>" ++ check (runes_of_ascii "packet uint8x
-{ match pack
-    as msg_type	{
-    0123456789 :	float
-}
-,
-} packet //	t
-a1
-    { char[ options {packetx
-    = '\x00'	; u128= ""a	b""  ; }
-")).
-Eval vm_compute in ("<<<M542>>>" ++ check (runes_of_ascii "$ packet uint8x
-{ match pack
-    as msg_type	{
-    0123456789 :	float
-}
-,
-} packet //	t
-a1
-    { } options {packetx
-    = '\x00'	; u128= ""a	b""  ; }
-")).
-Eval vm_compute in ("<<<M442>>>" ++ check (runes_of_ascii "packet uint8x
-{ match pack
-    as msg_type	{
-    0123456789 :	}
-float
-,
-} packet //	t
-a1
-    { } options {packetx
-    = '\x00'	; u128= ""a	b""  ; }
-")).
-Eval vm_compute in ("<<<M483>>>" ++ check (runes_of_ascii "packet uint8x
-{ match pack
-    as msg_type	{
-    0123456789 :	float
-}
-,
-} packet //	t
-a1
-    { } '\x00' {packetx
-    = '\x00'	; u128= ""a	b""  ; }
-")).
-Eval vm_compute in ("<<<M533>>>" ++ check (runes_of_ascii "packet uint8x
-{ match pack
-    as msg_type	{
-    0123456789 :	float
-}
-,
-} packet //	t
-a1
-    { } options {packetx
-    = '\x00'	; u128= ""a	b""  ;")).
-Eval vm_compute in ("<<<M723>>>" ++ check (runes_of_ascii "// @lengthOf(
-packet i8i8 { u128 o , }
-options { MetaD?ataX = true;
-    BodyLength =""packet"" x_y_z= 007
-crc //x
-= ""abc"" ;
-    msg_type =
-i16 }")).
-Eval vm_compute in ("<<<M710>>>" ++ check (runes_of_ascii "// @lengthOf(
-packet i8i8 { u128 o , }
-options { MetaDataX = true;
-    BodyLength =""packet"" x_y_z= 007
-crc //x
-= ""abc"" ;
-    msg_type 
-i16 }")).
-Eval vm_compute in ("<<<M1598>>>" ++ check (runes_of_ascii "packet _x {
-    //
-    repeat zchar[1] metadata,
-    @leftPad(' ')
-    @lengthOf(T)
-    @lengthOf(Z9_)
-    char[] As,
-    string f32a,
-}")).
-Eval vm_compute in ("<<<M1822>>>" ++ check (runes_of_ascii "packet u128 {
-    @calculatedFrom(""x y"")
-    // `tick` ""quote"" 'q'
-    @rightPad(' ')
-    char[42] Header @calculatedFrom(""abc""),
-}")).
-Eval vm_compute in ("<<<M1676>>>" ++ check (runes_of_ascii "
-
-  options{ 
-LittleEndian
-    = 
-true
-    ; }
-root packet
-
-    P{u16
-	a
-    , u32 
-Sum
-@calculatedFrom( ""CRC32"" ),	}
-")).
-Eval vm_compute in ("<<<M1155>>>" ++ check (runes_of_ascii "MetaData leftPad { chars MetaDataX , } // c
-packet repeatCount { char[ 255 ] uint8x `" ++ [233]%N ++ runes_of_ascii "` , } MetaData pack { As Foo , }")).
-Eval vm_compute in ("<<<M1187>>>" ++ check (runes_of_ascii "MetaData leftPad { chars MetaDataX , } packet repeatCount { char[ 255 ] uint8x `" ++ [233]%N ++ runes_of_ascii "` , } MetaData pack { As Foo , // c
-}")).
-Eval vm_compute in ("<<<M915>>>" ++ check (runes_of_ascii "packet A {
+Eval vm_compute in ("<<<M904>>>" ++ check (runes_of_ascii "packet A {
   match k as n {
-    [""a"", ""bb"", 007, ""d"", ""e"", 66, ""g"", ""h"", 9, ""j"", ""k"", 12] : B
+    [""a"", ""bb"", ""c c"", ""d"", ""e"", ""f"", ""g"", ""h"", ""i"", ""j"", ""k"", ""l""] : B,
     2 : C
   },
 }")).
-Eval vm_compute in ("<<<M1396>>>" ++ check (runes_of_ascii "
-packet 
-uint8x
-{
-match pack
-
-as msg_type
-
-    { 0123456789:
-float	},
-    } packet	//	t
-  a1
-
-{
-}
-
-")).
-Eval vm_compute in ("<<<M896>>>" ++ check (runes_of_ascii "packet A {
-  match k as n {
-    [1, ""bb"", 007, ""d"", 5, ""f"", 7, ""h"", 9, ""j"", 11] : B
-    2 : C
-  },
-}")).
-Eval vm_compute in ("<<<M905>>>" ++ check (runes_of_ascii "packet A {
-  match k as n {
-    [1, 22, 007, 4, 5, 66, 7, 8, 9, 10, 11, 12] : B
-    2 : C
-  },
-}")).
-Eval vm_compute in ("<<<M580>>>" ++ check (runes_of_ascii "
-packet
-    asx {match u128 char[ lengthOf
-{
-//	t
-// `tick` ""quote"" 'q'
-255 : x ,
-    } ,	}")).
-Eval vm_compute in ("<<<M229>>>" ++ check (runes_of_ascii "// a // b
-options{
-Foo
-= '\x00'
-    pack
-= zchar[ 65535]
-// " ++ [128512]%N ++ runes_of_ascii " emoji
-//x
-;	int = ""\n"" ;	}
-")).
-Eval vm_compute in ("<<<M874>>>" ++ check (runes_of_ascii "packet A {
-  match k as n {
-    [1, 22, ""c c"", 4, 5, ""f"", 7, 8, ""i""] : B
-    2 : C
-  },
-}")).
-Eval vm_compute in ("<<<M592>>>" ++ check (runes_of_ascii "
-packet
-    asx {match u128 as lengthOf
-{
-//	t
-// `tick` ""quote"" 'q'
- : x ,
-    } ,	}")).
-Eval vm_compute in ("<<<M966>>>" ++ check (runes_of_ascii "packet A {
-    u32 crc @calculatedFrom(""x\
-y""),
-    @calculatedFrom(""x\
-y"") u8 y,
-}")).
-Eval vm_compute in ("<<<M916>>>" ++ check (runes_of_ascii "packet A { Inner { match k as n { [1,22,007,4,5,66,7,8,9,10,11,12] : B, }, }, }")).
-Eval vm_compute in ("<<<M810>>>" ++ check (runes_of_ascii "packet A {
-  match k as n {
-    [""a"", ""bb"", 007, ""d""] : B,
-    2 : C
-  },
-}")).
-Eval vm_compute in ("<<<M808>>>" ++ check (runes_of_ascii "packet A {
-  match k as n {
-    [1, 22, ""c c"", 4] : B,
-    2 : C
-  },
-}")).
-Eval vm_compute in ("<<<M1098>>>" ++ check (runes_of_ascii "packet A {
-    match k as n {
-        1 : B,
-        // c
+Eval vm_compute in ("<<<M1214>>>" ++ check (runes_of_ascii "options { } options { MetaDataX
+// c
+= char ; } MetaData Pad { i8 metadata , string stringy , int8 As `{ , }` , }")).
+Eval vm_compute in ("<<<M1246>>>" ++ check (runes_of_ascii "options { } options { MetaDataX = char ; } MetaData Pad { i8 metadata , string stringy , int8 As `{ , }`
+// c
+, }")).
+Eval vm_compute in ("<<<M960>>>" ++ check (runes_of_ascii "packet A {
+    Inner {
+        u8 x `tab
+	x`,
+        Deep {
+            u8 y `tab
+	x`,
+        },
     },
 }")).
-Eval vm_compute in ("<<<M151>>>" ++ check (runes_of_ascii "packet
-    stringy
-{ } MetaData crc
-/// triple
-//x
-{ u16 o ,}")).
-Eval vm_compute in ("<<<M930>>>" ++ check (runes_of_ascii "packet A {
-    B b `
-`,
-    B `
-`,
-    repeat B bs `
-`,
+Eval vm_compute in ("<<<M964>>>" ++ check (runes_of_ascii "packet A {
+    B b `100% of %s %d %v`,
+    B `100% of %s %d %v`,
+    repeat B bs `100% of %s %d %v`,
 }")).
-Eval vm_compute in ("<<<M1930>>>" ++ check (runes_of_ascii "
+Eval vm_compute in ("<<<M873>>>" ++ check (runes_of_ascii "packet A {
+  match k as n {
+    [""a"", ""bb"", 007, ""d"", ""e"", 66, ""g"", ""h"", 9] : B,
+    2 : C
+  },
+}")).
+Eval vm_compute in ("<<<M861>>>" ++ check (runes_of_ascii "packet A {
+  match k as n {
+    [""a"", ""bb"", 007, ""d"", ""e"", 66, ""g"", ""h""] : B
+    2 : C
+  },
+}")).
+Eval vm_compute in ("<<<M1602>>>" ++ check (runes_of_ascii "packet Inner {
+u8
 
-  MetaData  o
+    a , }
+    root packet P
     {
-	}
 
-MetaData T {	}options{ }
+    Inner ref_obj ,
+
+u8 
+x
+
+,} ")).
+Eval vm_compute in ("<<<M625>>>" ++ check (runes_of_ascii "MetaData u
+    { } MetaData o
+{ float uint8x
+`100% of %d` ,repeatCount u8x, string_")).
+Eval vm_compute in ("<<<M851>>>" ++ check (runes_of_ascii "packet A {
+  match k as n {
+    [1, 22, 007, 4, 5, 66, 7, 8] : B
+    2 : C
+  },
+}")).
+Eval vm_compute in ("<<<M815>>>" ++ check (runes_of_ascii "packet A {
+  match k as n {
+    [1, ""bb"", 007, ""d"", 5] : B,
+    2 : C
+  },
+}")).
+Eval vm_compute in ("<<<M787>>>" ++ check (runes_of_ascii "packet A {
+  match k as n {
+    [""a"", ""bb"", ""c c""] : B,
+    2 : C
+  },
+}")).
+Eval vm_compute in ("<<<M1549>>>" ++ check (runes_of_ascii "packet A {
+    B b `
+    `,
+    B `
+    `,
+    repeat B bs `
+    `,
+}")).
+Eval vm_compute in ("<<<M65>>>" ++ check (runes_of_ascii "packet leftPad
+{ i16 charz // trailing space 
+, // @lengthOf(
+}")).
+Eval vm_compute in ("<<<M1110>>>" ++ check (runes_of_ascii "packet A { @leftPad() char[4] x, @rightPad( ) zchar[2] y, }")).
+Eval vm_compute in ("<<<M1436>>>" ++ check (runes_of_ascii "packet A {
+    u8 x,
+}// a
+
+// b
+packet B {
+}// c
+// d")).
+Eval vm_compute in ("<<<M372>>>" ++ check (runes_of_ascii "MetaData
+float { packetx
+f32a `crlf
+line` ,}
 ")).
-Eval vm_compute in ("<<<M1741>>>" ++ check (runes_of_ascii "packet body {
-    i32 f32a `{ , }`,
-}
-
-options {
-}")).
-Eval vm_compute in ("<<<M951>>>" ++ check (runes_of_ascii "MetaData M {
-    u8 x `x
-`,
-    T t `x
-`,
-}")).
-Eval vm_compute in ("<<<M1922>>>" ++ check (runes_of_ascii "// top
-MetaData tag {
-    // c2
-}
-// c3")).
-Eval vm_compute in ("<<<M1904>>>" ++ check (runes_of_ascii "packet A {
+Eval vm_compute in ("<<<M931>>>" ++ check (runes_of_ascii "MetaData M {
     u8 x `
-        x`,
+`,
+    T t `
+`,
 }")).
-Eval vm_compute in ("<<<M738>>>" ++ check (runes_of_ascii "\B1ss""~3@|Nr!9$[0mx>ti>t+Fp_cN&")).
-Eval vm_compute in ("<<<M1844>>>" ++ check (runes_of_ascii "
-MetaData
-tag
+Eval vm_compute in ("<<<M590>>>" ++ check (runes_of_ascii "MetaData u
+    { } MetaData o
+{ float")).
+Eval vm_compute in ("<<<M1962>>>" ++ check (runes_of_ascii "
+packet
 
-{
-} 
-	// c
-")).
-Eval vm_compute in ("<<<M338>>>" ++ check (runes_of_ascii "root packet
-msg_type { }
-")).
-Eval vm_compute in ("<<<M1923>>>" ++ check (runes_of_ascii "// c" ++ [8203]%N ++ runes_of_ascii "
-		packet	A
-	{ }")).
-Eval vm_compute in ("<<<M1042>>>" ++ check (runes_of_ascii "// c 	
-packet A {
-}")).
-Eval vm_compute in ("<<<M1011>>>" ++ check (runes_of_ascii "packet A {
+A{ u8
+
+    x
+`a
+b` ,
 }
-// c" ++ [8232]%N)).
-Eval vm_compute in ("<<<M979>>>" ++ check (runes_of_ascii "packet A {
-}// c" ++ [12288]%N)).
-Eval vm_compute in ("<<<M46>>>" ++ check (runes_of_ascii "//x
-
-// a // b
 ")).
-Eval vm_compute in ("<<<M1815>>>" ++ check (runes_of_ascii "// c" ++ [11]%N ++ runes_of_ascii "
- 
+Eval vm_compute in ("<<<M192>>>" ++ check (runes_of_ascii "
+options
+    { asx = false
+;  }
 ")).
-Eval vm_compute in ("<<<M1823>>>" ++ check (runes_of_ascii "
-
-  ")).
+Eval vm_compute in ("<<<M1022>>>" ++ check (runes_of_ascii "packet A {
+ u8 x `d" ++ [8192]%N ++ runes_of_ascii "`, // c" ++ [8192]%N ++ runes_of_ascii "
+}")).
+Eval vm_compute in ("<<<M740>>>" ++ check (runes_of_ascii "? Yk{t2<omLkW}'N@Vi/x[_j_,J")).
+Eval vm_compute in ("<<<M364>>>" ++ check (runes_of_ascii "
+packet string_
+    { }")).
+Eval vm_compute in ("<<<M1558>>>" ++ check (runes_of_ascii "// c
+MetaData tag {
+}")).
+Eval vm_compute in ("<<<M1040>>>" ++ check (runes_of_ascii "packet A {
+}
+// c" ++ [8239]%N)).
+Eval vm_compute in ("<<<M1028>>>" ++ check (runes_of_ascii "packet A {
+}// c" ++ [8232]%N)).
+Eval vm_compute in ("<<<M216>>>" ++ check (runes_of_ascii "packet u8x { }")).
+Eval vm_compute in ("<<<M1004>>>" ++ check (runes_of_ascii "// c" ++ [160]%N)).
+Eval vm_compute in ("<<<M733>>>" ++ check ([0]%N)).
